@@ -29,6 +29,7 @@ type ScenOpts struct {
 	Writers   []int // replica indices (0-based in scenario) allowed to write; nil = all
 	Wildcard  bool
 	NoOpen    bool // only create replicas
+	AutoNet   bool // deliver published/sent payloads immediately (default: queue them; drivers sync manually)
 	Replicate *bool
 }
 
@@ -64,6 +65,7 @@ func NewScen(n int, storeType string, o *ScenOpts) (*Scen, error) {
 	}
 	scenCounter++
 	sim.TheHooks.Reset()
+	env.Net.ResetTraffic(o.AutoNet)
 	s := &Scen{Env: env, Canon: sim.NewCanon(), Type: storeType, Label: fmt.Sprintf("s%d", scenCounter)}
 	for i := 0; i < n; i++ {
 		r, err := env.NewReplica(scenCounter*100+i, s.Label)
